@@ -216,11 +216,11 @@ LR_G = 'gq0, gq1, gr00, gr01, gr10, gr11, g_ver0, g_apps, g_phase, g_flipped, g_
 W_SETUP = 'vf_U = self; g_role = ROLE_WRITER;'
 R_SETUP = 'vf_U = self; g_role = ROLE_READER;'
 DRAIN_INV = ('LR_INV && self->m_writeMutex.excl_me && vf_held == 1 && !vf_exc && g_apps == 1 && g_flipped && g_phase == %(phase)d && '
-             'local_readingLeft == !self->m_readingLeft.v && self->m_countingLeft.v == %(cl)s && '
+             'self->m_countingLeft.v == %(cl)s && '
              '%(r0)s && %(r1)s && '
              'vf_n_yield >= 0 && vf_n_yield <= VF_BIG && '
-             'COPY(local_readingLeft ? 0 : 1)->v == g_ver0 + 1 && !COPY(local_readingLeft ? 0 : 1)->torn && '
-             'COPY(local_readingLeft ? 1 : 0)->v == g_ver0 && !COPY(local_readingLeft ? 1 : 0)->torn')
+             'COPY((!self->m_readingLeft.v) ? 0 : 1)->v == g_ver0 + 1 && !COPY((!self->m_readingLeft.v) ? 0 : 1)->torn && '
+             'COPY((!self->m_readingLeft.v) ? 1 : 0)->v == g_ver0 && !COPY((!self->m_readingLeft.v) ? 1 : 0)->torn')
 DRAIN_ASSIGNS = 'self->m_leftReadCount.v, self->m_rightReadCount.v, gq0, gq1, gr00, gr01, gr10, gr11, vf_n_yield'
 
 
@@ -233,11 +233,11 @@ def drain(phase, cl, r0, r1):
 
 def LE(c):
     """population of copy `old` (the one readers were redirected away from) in counter c has not grown"""
-    return '(local_readingLeft ? (gr%d1 <= __CPROVER_loop_entry(gr%d1)) : (gr%d0 <= __CPROVER_loop_entry(gr%d0)))' % (c, c, c, c)
+    return '((!self->m_readingLeft.v) ? (gr%d1 <= __CPROVER_loop_entry(gr%d1)) : (gr%d0 <= __CPROVER_loop_entry(gr%d0)))' % (c, c, c, c)
 
 
 def Z(c):
-    return '(local_readingLeft ? gr%d1 == 0 : gr%d0 == 0)' % (c, c)
+    return '((!self->m_readingLeft.v) ? gr%d1 == 0 : gr%d0 == 0)' % (c, c)
 
 
 FN = {
